@@ -257,6 +257,55 @@ def check_C12(prop, tier, seed):
 
 
 # ------------------------------------------------------------------------------------------------ C15
+def c15_regime_corpus(prop, tier, seed, binaries, env, merged):
+    """Rare regimes under concurrency: harvest, per regime label of the semantic properties, the first generated case that
+    showed it, and run each such case in three threads at once (lockstep) in the ThreadSanitizer build."""
+    rundir = os.path.join(vc.RUN, "C15-%s-corpus" % tier)
+    shutil.rmtree(rundir, ignore_errors=True)
+    os.makedirs(rundir)
+    src = binaries["r-ts-asan"]
+    props = ["C01", "C02", "C03", "C04", "C05", "C06", "C07", "C08", "C13"]
+    jobs = [(p, sh) for p in props for sh in range(2 if tier == "quick" else 5)]
+
+    def harvest(j):
+        p, sh = j
+        out = os.path.join(rundir, "h-%s-%d.json" % (p, sh))
+        e = vc.san_env(os.path.join(rundir, "san-h-%s-%d" % (p, sh)), False, None)
+        e["VF_TMP"] = rundir
+        try:
+            subprocess.run([src, "check", p, "--cases", "1200", "--scale", "700", "--tier", "0", "--seed",
+                            str(vc.seed_for(seed, prop, "harvest-" + p, sh)), "--out", out], stdout=subprocess.DEVNULL,
+                           stderr=subprocess.DEVNULL, env=e, timeout=900)
+            return json.load(open(out))["samples"]
+        except Exception:
+            return []
+
+    with ThreadPoolExecutor(min(len(jobs), vbuild.JOBS)) as pool:
+        got = list(pool.map(harvest, jobs))
+    recipes, seen = [], set()
+    for smp in got:
+        for r in smp:
+            if r in seen or "enum" in r or " step=" in r or "basis" in r:
+                continue
+            seen.add(r)
+            recipes.append(r)
+    recipes = recipes[:240 if tier == "quick" else 900]
+    lines = []
+    for r in recipes:
+        toks = [t for t in r.split(" ") if t and not t.startswith("prop=")]
+        lines.append("prop=C15 op=threads T=3 steps=1 lockstep=1 " + " ".join("t%ds0/%s" % (t, tok) for t in range(3) for tok in toks))
+    res, crashes = run_exec(binaries["r-ts-tsan"], lines, rundir, "lock", env_extra=env, parts=12)
+    for i, (ok, dg, lab, msg) in res.items():
+        if not ok:
+            merged["failures"].append(dict(kind="oracle", cfg="r-ts-tsan", case=lines[i], msg="[regime corpus in lockstep] " + msg))
+    for case, msg in crashes:
+        if case:
+            merged["failures"].append(dict(kind="crash", cfg="r-ts-tsan", case=case, msg="[regime corpus in lockstep] " + msg))
+    merged["evaluations"] += len(res)
+    merged["labels"]["lockstep-regime-corpus-cases"] = len(res)
+    return dict(harvested=len(recipes), executed=len(res), crashes=len(crashes))
+
+
 def check_C15(prop, tier, seed):
     t0 = time.time()
     variants = C15_VARIANTS
@@ -268,8 +317,13 @@ def check_C15(prop, tier, seed):
     plan = dict(cfgs=cfgs, shards=15, cases=1500 if tier == "quick" else 6000, scale=220, maxsize=100)
     merged = vc.generic_check(prop, tier, seed, plan, binaries, extra_env=env)
     rule = subprocess.run([binaries[cfgs[0]], "rule", prop], stdout=subprocess.PIPE).stdout.decode().strip()
+    corpus = c15_regime_corpus(prop, tier, seed, binaries, env, merged)
+    rule += (" | regime corpus in lockstep: the semantic generators of C01-C08 and C13 are run briefly in the (fast) ASan build of the "
+             "thread-safe configuration, the first case that showed each regime label is kept, and every kept case is executed by 3 "
+             "threads at once (same case, private operands) under ThreadSanitizer with the same oracle")
     return vc.finish(prop, tier, seed, "exploration", merged, reg, rule, t0,
                      extra_cov=dict(configurations={c: " ".join(variants[c]) for c in cfgs}, configuration_header_source=source,
+                                    lockstep_regime_corpus=corpus,
                                     race_detector="ThreadSanitizer (library, shim instrumented; a report terminates the process)"),
                      extra_env=env, confirm_runs=5, confirm_need=1,
                      assumptions=["only thread-private operands; m4ri_init runs before any thread is created; the harness (uninstrumented) "
